@@ -206,18 +206,25 @@ def diffroi_event(darsia, rng, tid, shape, h, omode, table, comps, T):
     return e
 
 
+STK = [-1]
+
+
 def stack_event(darsia, rng, tid, n, k, timekind, shape, use_append):
     full = tuple(shape)
     imgs = []
     # spacing of the acquisition times: seconds, half a day, more than a day, fractions of a second
     step = rng.choice([10.0, 40000.0, 93600.0, 7.25])
+    # (relative times by turns: all positive; starting at exactly 0; running through 0 from negative times)
+    if timekind == "times":
+        STK[0] += 1
+    t0 = [0.0, 3.0, -step, 0.0, -2 * step][STK[0] % 5]
     for i in range(k):
         arr = (np.arange(int(np.prod(full)), dtype=float) + 1000 * i).reshape(full)
         kw = dict(space_dim=n, dimensions=[1.0 * s for s in shape], scalar=True)
         if timekind == "dates":
             kw.update(date=BASE_DATE + datetime.timedelta(seconds=step * i), reference_date=BASE_DATE)
         elif timekind == "times":
-            kw.update(time=step * i + 3)
+            kw.update(time=step * i + t0)
         imgs.append(darsia.Image(arr, **kw))
 
     def proj(im):      # times and dates in milliseconds
